@@ -654,6 +654,19 @@ func (s *Stream) ProcessSync(data map[string]any) (map[string]any, error) {
 		return nil, fmt.Errorf("Synchronous processing is not supported for MATCH_RECOGNIZE queries.")
 	}
 
+	// A stopped stream processes nothing, and Stop joins the calls still in
+	// progress: without this a sink could run after Stop has returned. Same
+	// discipline as Start: the stopped-check + Add is serialized with Stop's flag
+	// set so Add never races with the Wait in waitLifecycle.
+	s.startMu.Lock()
+	if atomic.LoadInt32(&s.stopped) != 0 {
+		s.startMu.Unlock()
+		return nil, fmt.Errorf("stream is stopped")
+	}
+	s.lifecycle.Add(1)
+	s.startMu.Unlock()
+	defer s.lifecycle.Done()
+
 	// Directly process data and return result. processDirectDataSync applies the
 	// filter after JOIN enrichment so WHERE can reference joined columns.
 	return s.processDirectDataSync(data)
